@@ -70,6 +70,13 @@ end tikhonov
 section kkt
 variable {m n k : Type} [Fintype m] [Fintype n] [Fintype k]
 
+/-- force matching: coefficients that reproduce every reference force (`A u = b`, what the check certifies for the tables
+`csg_fmatch` writes, by recomputing the forces from them) minimise `|A v - b|²` over all `v`, constrained or not -/
+theorem zero_residual_is_minimum (A : Matrix m n ℝ) (b : m → ℝ) (u v : n → ℝ) (h : A *ᵥ u = b) :
+    (A *ᵥ u - b) ⬝ᵥ (A *ᵥ u - b) ≤ (A *ᵥ v - b) ⬝ᵥ (A *ᵥ v - b) := by
+  rw [h, sub_self]
+  simpa using dot_self_nonneg (A *ᵥ v - b)
+
 /-- the KKT conditions are sufficient: feasible `x` with `Aᵀ(Ax - b) = Bᵀλ` minimises `|Ay - b|²` over all feasible `y` -/
 theorem kkt_optimal (A : Matrix m n ℝ) (B : Matrix k n ℝ) (b : m → ℝ) (x y : n → ℝ) (lam : k → ℝ)
     (hx : B *ᵥ x = 0) (hy : B *ᵥ y = 0) (hs : Aᵀ *ᵥ (A *ᵥ x - b) = Bᵀ *ᵥ lam) :
